@@ -1,0 +1,271 @@
+//! Verification-only thin wrappers around `pub(crate)` items of the store program
+//! used by the protocol-level property checks (action lifecycle, swap paths, GLV,
+//! vault solvency).  No logic of their own: every function only forwards to, or
+//! plumbs together, existing items exactly as the instruction handlers do.
+//! Compiled only with `--cfg gmsol_verif`.
+use anchor_lang::prelude::*;
+
+use crate::{
+    events::EventEmitter,
+    instructions::{CloseDeposit, CloseGlvShift},
+    ops::execution_fee::PayExecutionFeeOperation,
+    states::{
+        common::{
+            action::ActionHeader,
+            swap::{SwapActionParams, SwapActionParamsExt},
+        },
+        glv::Glv,
+        market::revertible::{
+            market::RevertibleMarket,
+            swap_market::{SwapDirection, SwapMarkets},
+            Revertible, RevertibleVirtualInventories,
+        },
+        Market, Oracle,
+    },
+    utils::internal,
+};
+
+// ---------------------------------------------------------------- actions
+
+/// Calls `ActionHeader::completed`.
+pub fn action_header_completed(header: &mut ActionHeader) -> Result<()> {
+    header.completed()
+}
+
+/// Calls `ActionHeader::cancelled`.
+pub fn action_header_cancelled(header: &mut ActionHeader) -> Result<()> {
+    header.cancelled()
+}
+
+/// Calls `ActionHeader::init`.
+#[allow(clippy::too_many_arguments)]
+pub fn action_header_init(
+    header: &mut ActionHeader,
+    id: u64,
+    store: Pubkey,
+    market: Pubkey,
+    owner: Pubkey,
+    receiver: Pubkey,
+    nonce: [u8; 32],
+    bump: u8,
+    execution_lamports: u64,
+    should_unwrap_native_token: bool,
+) -> Result<()> {
+    header.init(
+        id,
+        store,
+        market,
+        owner,
+        receiver,
+        nonce,
+        bump,
+        execution_lamports,
+        should_unwrap_native_token,
+    )
+}
+
+/// Calls `ActionHeader::set_rent_receiver`.
+pub fn action_header_set_rent_receiver(header: &mut ActionHeader, rent_receiver: Pubkey) {
+    header.set_rent_receiver(rent_receiver)
+}
+
+/// Builds and executes a `PayExecutionFeeOperation`.
+pub fn pay_execution_fee<'info>(
+    payer: AccountInfo<'info>,
+    receiver: AccountInfo<'info>,
+    execution_lamports: u64,
+) -> Result<()> {
+    PayExecutionFeeOperation::builder()
+        .payer(payer)
+        .receiver(receiver)
+        .execution_lamports(execution_lamports)
+        .build()
+        .execute()
+}
+
+/// Calls `Close::preprocess` of [`CloseDeposit`].
+pub fn close_deposit_preprocess(accounts: &CloseDeposit<'_>) -> Result<bool> {
+    internal::Close::preprocess(accounts)
+}
+
+/// Calls `Close::preprocess` of [`CloseGlvShift`].
+pub fn close_glv_shift_preprocess(accounts: &CloseGlvShift<'_>) -> Result<bool> {
+    internal::Close::preprocess(accounts)
+}
+
+// ---------------------------------------------------------------- swap paths
+
+/// Calls `SwapActionParamsExt::validate_and_init`.
+#[allow(clippy::too_many_arguments)]
+pub fn swap_validate_and_init<'info>(
+    params: &mut SwapActionParams,
+    current_market: &Market,
+    primary_length: u8,
+    secondary_length: u8,
+    paths: &'info [AccountInfo<'info>],
+    store: &Pubkey,
+    token_ins: (&Pubkey, &Pubkey),
+    token_outs: (&Pubkey, &Pubkey),
+) -> Result<()> {
+    params.validate_and_init(
+        current_market,
+        primary_length,
+        secondary_length,
+        paths,
+        store,
+        token_ins,
+        token_outs,
+    )
+}
+
+/// Creates a [`RevertibleMarket`] (virtual inventories disabled) as
+/// `MarketTransferInOperation` does, hands it to `f`, and commits it when asked.
+pub fn with_revertible_market<'a, 'info, R>(
+    market: &'a AccountLoader<'info, Market>,
+    event_authority: &'a AccountInfo<'info>,
+    event_authority_bump: u8,
+    commit: bool,
+    f: impl FnOnce(&mut RevertibleMarket<'a, 'info>) -> R,
+) -> Result<R> {
+    let event_emitter = EventEmitter::new(event_authority, event_authority_bump);
+    let mut market = RevertibleMarket::new(market, None, event_emitter)?;
+    let output = f(&mut market);
+    if commit {
+        market.commit();
+    }
+    Ok(output)
+}
+
+/// Plumbs `RevertibleMarket::new` + `SwapMarkets::new` + `SwapMarkets::revertible_swap`
+/// together the way `ExecuteOrderOperation` does (no virtual inventories), then
+/// lets `inspect` look at the uncommitted current market and swap markets and
+/// commits everything when `commit` is set and the swap succeeded.
+#[allow(clippy::too_many_arguments)]
+pub fn run_revertible_swap<'a, 'info, R>(
+    store: &Pubkey,
+    current: &'a AccountLoader<'info, Market>,
+    loaders: &'a [AccountLoader<'info, Market>],
+    is_into: bool,
+    oracle: &Oracle,
+    params: &SwapActionParams,
+    expected_token_outs: (Pubkey, Pubkey),
+    token_ins: (Option<Pubkey>, Option<Pubkey>),
+    token_in_amounts: (u64, u64),
+    event_authority: &'a AccountInfo<'info>,
+    event_authority_bump: u8,
+    commit: bool,
+    inspect: impl FnOnce(
+        &Result<(u64, u64)>,
+        &RevertibleMarket<'_, 'info>,
+        &SwapMarkets<'_, 'info>,
+    ) -> R,
+) -> Result<R> {
+    let virtual_inventories = RevertibleVirtualInventories::from_loaders(&Default::default())?;
+    let event_emitter = EventEmitter::new(event_authority, event_authority_bump);
+    let current_market_token = current.load()?.meta().market_token_mint;
+    let mut market = RevertibleMarket::new(current, Some(&virtual_inventories), event_emitter)?;
+    let mut swap_markets = SwapMarkets::new(
+        store,
+        loaders,
+        Some(&current_market_token),
+        &virtual_inventories,
+        event_emitter,
+    )?;
+    let direction = if is_into {
+        SwapDirection::Into(&mut market)
+    } else {
+        SwapDirection::From(&mut market)
+    };
+    let result = swap_markets.revertible_swap(
+        direction,
+        oracle,
+        params,
+        expected_token_outs,
+        token_ins,
+        token_in_amounts,
+    );
+    let output = inspect(&result, &market, &swap_markets);
+    if commit && result.is_ok() {
+        market.commit();
+        swap_markets.commit();
+    }
+    Ok(output)
+}
+
+// ---------------------------------------------------------------- GLV
+
+/// Calls `Glv::unchecked_init`.
+#[allow(clippy::too_many_arguments)]
+pub fn glv_unchecked_init(
+    glv: &mut Glv,
+    bump: u8,
+    index: u16,
+    store: &Pubkey,
+    glv_token: &Pubkey,
+    long_token: &Pubkey,
+    short_token: &Pubkey,
+    market_tokens: &std::collections::BTreeSet<Pubkey>,
+) -> Result<()> {
+    glv.unchecked_init(
+        bump,
+        index,
+        store,
+        glv_token,
+        long_token,
+        short_token,
+        market_tokens,
+    )
+}
+
+/// Calls `Glv::process_and_validate_markets_for_init`.
+pub fn glv_process_and_validate_markets_for_init<'info>(
+    markets: &'info [AccountInfo<'info>],
+    store: &Pubkey,
+) -> Result<(Pubkey, Pubkey, std::collections::BTreeSet<Pubkey>)> {
+    Glv::process_and_validate_markets_for_init(markets, store)
+}
+
+/// Calls `Glv::insert_market`.
+pub fn glv_insert_market(glv: &mut Glv, store: &Pubkey, market: &Market) -> Result<()> {
+    glv.insert_market(store, market)
+}
+
+/// Calls `Glv::unchecked_remove_market`.
+pub fn glv_unchecked_remove_market(glv: &mut Glv, market_token: &Pubkey) -> Result<()> {
+    glv.unchecked_remove_market(market_token)
+}
+
+/// Calls `Glv::update_market_config`.
+pub fn glv_update_market_config(
+    glv: &mut Glv,
+    market_token: &Pubkey,
+    max_amount: Option<u64>,
+    max_value: Option<u128>,
+) -> Result<()> {
+    glv.update_market_config(market_token, max_amount, max_value)
+}
+
+/// Calls `Glv::validate_market_token_balance`.
+pub fn glv_validate_market_token_balance(
+    glv: &Glv,
+    market_token: &Pubkey,
+    new_balance: u64,
+    market_pool_value: &i128,
+    market_token_supply: &u128,
+) -> Result<()> {
+    glv.validate_market_token_balance(
+        market_token,
+        new_balance,
+        market_pool_value,
+        market_token_supply,
+    )
+}
+
+/// Calls `Glv::update_market_token_balance`.
+pub fn glv_update_market_token_balance(
+    glv: &mut Glv,
+    market_token: &Pubkey,
+    new_balance: u64,
+) -> Result<()> {
+    glv.update_market_token_balance(market_token, new_balance)
+}
